@@ -84,7 +84,8 @@ pub fn run_tap(scn: &Scenario, ctx: &mut Ctx) {
                 }
                 let lt = to_lib_set(&targets);
                 let act = obscure_action(action);
-                let sent = match guarded(|| if revealing { doc.elide_revealing_set_with_action(&lt, &act) } else { doc.elide_removing_set_with_action(&lt, &act) }) {
+                let _ = (&lt, &act);
+                let sent = match guarded(|| elide_via(&doc, &targets, revealing, action, st.arg(4) >> 2)) {
                     Ok(e) => e,
                     Err(p) => {
                         ctx.violate_sig("C16.no-panic", format!("elide panicked: {}", p), p);
@@ -221,7 +222,7 @@ pub fn generate_tap(property: &str, r: &mut SimRng, seed: u64) -> Scenario {
                 2 => r.next(),
                 _ => (1u64 << r.below(12)) | (1u64 << r.below(12)),
             };
-            scn.push("T.ElideSend", &[d, r.below(2), r.below(5) % 3, mask, r.below(4)]);
+            scn.push("T.ElideSend", &[d, r.below(2), r.below(5) % 3, mask, r.below(4) | (r.below(6) << 2)]);
         } else {
             scn.push("T.Unelide", &[d, r.below(6), r.below(3), r.next() % 100000]);
         }
